@@ -619,3 +619,31 @@ mod update_response_tests {
         assert_eq!(TypeOfExpiryUpdate::Nothing, update_response.type_of_expiry_update());
     }
 }
+
+#[cfg(cached_verif)]
+pub fn verif_type_of_expiry_update(existing: Option<u64>, new: Option<u64>) -> (u8, u64, u64) {
+    let to_time = |secs: u64| std::time::UNIX_EPOCH + Duration::from_secs(secs);
+    let from_time = |time: ExpireAfter| time.duration_since(std::time::UNIX_EPOCH).unwrap().as_secs();
+    let response: UpdateResponse<u64> = UpdateResponse(Some(KeyIdExpiry(7, existing.map(to_time))), new.map(to_time), None);
+    match response.type_of_expiry_update() {
+        TypeOfExpiryUpdate::Nothing => (0, 0, 0),
+        TypeOfExpiryUpdate::Added(_, expiry) => (1, from_time(expiry), 0),
+        TypeOfExpiryUpdate::Deleted(_, expiry) => (2, from_time(expiry), 0),
+        TypeOfExpiryUpdate::Updated(_, old_expiry, new_expiry) => (3, from_time(old_expiry), from_time(new_expiry)),
+    }
+}
+
+#[cfg(cached_verif)]
+impl Store<u64, u64> {
+    /// (key, value, key id, expiry in ns since the epoch, soft-deleted), sorted by key
+    pub(crate) fn verif_entries(&self) -> Vec<(u64, u64, u64, Option<u128>, bool)> {
+        let mut entries: Vec<(u64, u64, u64, Option<u128>, bool)> = self.store.iter().map(|pair| {
+            let stored_value = pair.value();
+            (*pair.key(), *stored_value.value_ref(), stored_value.key_id(),
+             stored_value.expire_after().map(|time| crate::cache::verif::system_time_to_ns(&time)),
+             stored_value.is_soft_deleted)
+        }).collect();
+        entries.sort();
+        entries
+    }
+}
